@@ -7,6 +7,7 @@ import traceback
 from .frontend import Repo
 from .report import Task
 from .solve import discharge, Obligation
+from .floats import has_float_ops
 from .verify import build_obligations
 from .values import veq
 
@@ -40,6 +41,10 @@ def result_dict(r, with_size=True):
 def resolve_real(dotted):
     """The real, importable function object for 'module.Class.func' inside the nmea2000 package."""
     parts = dotted.split('.')
+    from .frontend import REPO
+    import sys
+    if sys.path[0] != REPO:
+        sys.path.insert(0, REPO)     # replay on the same tree the verification conditions came from
     mod = importlib.import_module('nmea2000.' + parts[0])
     obj = mod
     for p in parts[1:]:
@@ -136,6 +141,7 @@ class SpecTask(Task):
         if rep.paths == 0:
             out['error'] = f'no feasible path through {self.spec.func} (precondition unsatisfiable?)'
             return out
+        need_fallback = False
         for ob in rep.obligations:
             r = discharge(ob, budget(tier))
             d = result_dict(r)
@@ -146,7 +152,26 @@ class SpecTask(Task):
                     d['reason'] = note
                 if r.model is not None:
                     d['replay'] = native_replay(self.spec, r.model)
+                if not (d.get('replay') or {}).get('confirmed') and ob.float_model is None and has_float_ops(ob.formula()):
+                    # the counterexample lives in the uninterpreted-float abstraction: refine to the standard model
+                    ob.float_model = 'S'
+                    r2 = discharge(ob, budget(tier))
+                    d2 = result_dict(r2)
+                    d2['function'] = self.spec.func
+                    d2['refined'] = 'float model S after a spurious counterexample in the uninterpreted abstraction'
+                    if r2.status == 'refuted' and r2.model is not None:
+                        if note:
+                            d2['reason'] = note
+                        d2['replay'] = native_replay(self.spec, r2.model)
+                    d = d2
+                if d['status'] == 'refuted' and not (d.get('replay') or {}).get('confirmed'):
+                    need_fallback = True
             out['results'].append(d)
+        if need_fallback:
+            fb = self.fallback(tier)
+            if fb is not None:
+                out['results'].extend(fb['results'])
+                out['bounded'].append(fb['note'])
         return out
 
     def fallback(self, tier):
